@@ -163,6 +163,13 @@ def enumerate_cases(tier, shard=0, nshards=1):
                             'eval': 'H9', 'n': len(cells)})
     for kind in ('unknown', 'pyerror'):
         out.append({'k': 'faildepth', 'kind': kind})
+    # BIG acyclic models: many formula cells under one SUM, ladders of
+    # width 2 (2^depth evaluations without a model-wide memo): a value,
+    # never a cycle report, however much work it is
+    for n in (5000, 10050, 20000):
+        out.append({'k': 'big', 'shape': 'sum', 'n': n})
+    for n in (13, 15, 16):
+        out.append({'k': 'big', 'shape': 'ladder2', 'n': n})
     # WIDE ladders: every formula mentions its precedent twice with a range
     # of `width` other cells in between (=A2+SUM(C1:..1)+A2); the work must
     # stay linear in depth x width whatever the width, whether the ladder
@@ -585,8 +592,41 @@ def _wide(case, res):
     return res
 
 
+def _big(case, res):
+    xl = lib.lib()
+    n, shape = case['n'], case['shape']
+    res.nontrivial = True
+    res.labels = ('big-acyclic', shape)
+    if shape == 'sum':
+        d = {'Sheet1!B1': 3, 'Sheet1!C1': '=SUM(A1:A%d)' % n}
+        for i in range(1, n + 1):
+            d['Sheet1!A%d' % i] = '=B1*2'
+        start, want = 'Sheet1!C1', float(6 * n)
+    else:
+        d = {'Sheet1!A%d' % (n + 1): 1, 'Sheet1!B%d' % (n + 1): 1}
+        for i in range(1, n + 1):
+            d['Sheet1!A%d' % i] = '=A%d+B%d' % (i + 1, i + 1)
+            d['Sheet1!B%d' % i] = '=A%d+B%d' % (i + 1, i + 1)
+        start, want = 'Sheet1!A1', float(2 ** n)
+    m = lib.compile_dict(d)
+    ev = xl.Evaluator(m)
+    try:
+        o = norm(ev.evaluate(start))
+    except Exception as e:  # noqa: BLE001
+        msg = str(e)
+        res.fail('acyclic-flagged-as-cycle:big' if 'cycle' in msg.lower()
+                 else 'acyclic-exception:big', ('N', want), msg[:200],
+                 [shape, n])
+        return res
+    if o != ('N', want):
+        res.fail('acyclic-wrong-value:big', ('N', want), o, [shape, n])
+    return res
+
+
 def judge(case):
     res = Result()
+    if case['k'] == 'big':
+        return _big(case, res)
     if case['k'] == 'wide':
         return _wide(case, res)
     if case['k'] == 'guarded':
